@@ -6,6 +6,7 @@
  R9.4 load aggregation and signs (shared with C03 R3.4)
  R9.5 thermal direction switch (shared with C10 R10.5)
  R9.6 an out-of-service element / closed valve contributes nothing: ACTIVE column and in_service factors
+ R9.7 end symmetry of the pit construction (TOUTINIT is the temperature of the TO_NODE)
 """
 import ast
 
@@ -27,7 +28,11 @@ EXPLANATION = (
     "pressure of the interpolated height; (R9.4) several const-flow elements on a junction accumulate (+=) their "
     "scaled, signed, in-service mass flows and a source is a negative sink; (R9.5) the thermal direction switch; "
     "(R9.6) every branch component writes its ACTIVE column from its in_service/opened column and const-flow loads "
-    "carry the in_service factor. Not decided: equality of the results of two networks (runtime).")
+    "carry the in_service factor; (R9.7) end symmetry of the pit construction: wherever a create_pit_branch_entries "
+    "writes TOUTINIT from node temperatures it reads TINIT of exactly the node it stores in TO_NODE for the same rows "
+    "(the from side is read as TINIT of FROM_NODE in the kernels), so swapping from/to mirrors the pair of end "
+    "temperatures the fluid properties are evaluated at; prescribed outlet temperatures (heat consumer return, pump flow "
+    "temperature) involve no node value. Not decided: equality of the results of two networks (runtime).")
 ASSUMPTIONS = [phys.POSITIVITY_TEXT, "mean quantities (density, compressibility, mean temperature) are symmetric under branch reversal"]
 TECHNIQUE = "substitution in rational normal forms of the kernels; per-class value numbering of pit construction"
 
